@@ -512,9 +512,9 @@ pub fn c19(out: &mut Out, rng: &mut Rng, tier: &Tier) {
         }
     } else {
         jobs.push((3, 0, 300, 3));
-        // one graph beyond 65 536 nodes (with nodes longer than K) in every run: the size at which a parallel
+        // one graph beyond 65 536 nodes with nodes longer than K (first k-mer != last k-mer: kind 3) in every run: the size at which a parallel
         // builder really splits work and at which the end indexes are tens of thousands of slots
-        jobs.push((4, 2, 100_000, 4));
+        jobs.push((4, 3, 100_000, 4));
     }
     for (j, (kt, kind, size, reps)) in jobs.iter().enumerate() {
         // per-job generator so that shards see the same job whatever they skipped
